@@ -123,6 +123,11 @@ def regen(chk: core.Check, python_side=True):
     g = gen.gen_raw_consts()
     if not g["ok"]:
         chk.obligation_broken("translator", "extract constants/masks from raw_io.hh / raw_io.cc", g["error"])
+    g3 = gen.gen_rawcpp()
+    if not g3["ok"]:
+        chk.obligation_broken("translator", "translate the functions of RawBinaryParser (raw_io.cc / raw_io.hh) into Gen/RawCpp.lean", g3["error"])
+    else:
+        chk.coverage["rawcpp_translation"] = {k: (v if len(str(v)) < 200 else str(v)[:200]) for k, v in g3["info"].items()} if isinstance(g3["info"], dict) else str(g3["info"])[:300]
     if not python_side:
         return g["ok"]
     g2 = gen.gen_rawpy()
